@@ -1,4 +1,5 @@
 import Feox.Gen.Locks
+import Feox.Gen.Loops
 import Feox.Gen.Constants
 import Feox.Conc.Solo
 import Feox.Conc.Pin
@@ -15,7 +16,11 @@ import Feox.Conc.Pin
 * the retirement handshake (`Feox.Conc.Pin`) cannot get stuck: once the readers have left, the
   retirer's remaining steps are all enabled (no lost wake-up at the protocol level: the bit stays
   set, so no new reader arrives);
-* the retry loops outside the model are bounded by constants regenerated from the source.
+* the final flush at shutdown — its `match` arms regenerated from the Rust source on every run
+  (`tools/gen_loops.py` → `Feox.Gen.finalFlushArms`) — leaves its loop within
+  `FINAL_FLUSH_RETRY_LIMIT − 1` rounds whatever each round meets (device errors, postponed
+  retirements), because every arm either leaves or bumps exactly the counter it compares;
+* the remaining retry loops are bounded by constants regenerated from the source.
 -/
 namespace Feox.C18
 open Feox.Gen Feox.Conc
@@ -92,7 +97,22 @@ theorem retry_bounds :
     0 < STALE_READ_RETRY_LIMIT ∧ STALE_READ_RETRY_LIMIT ≤ 16 ∧ 0 < FINAL_FLUSH_RETRY_LIMIT ∧ FINAL_FLUSH_RETRY_LIMIT ≤ 4096 := by
   decide
 
+/-- **The final flush of a worker at shutdown terminates**: whatever each round's
+`flush_worker_shards` returns — `Ok(true)` for ever, a retryable error for ever, any mixture —
+the loop is left after at most `(number of counters) · (FINAL_FLUSH_RETRY_LIMIT − 1)` rounds that
+do not leave it.  The arms are the ones the translator reads off `write_buffer_worker`. -/
+theorem final_flush_terminates (ch cs : List Nat)
+    (h : Loops.survive finalFlushLimit finalFlushArms ch (List.replicate finalFlushCounters.length 0) = some cs) :
+    ch.length ≤ finalFlushCounters.length * (finalFlushLimit - 1) :=
+  Loops.bounded finalFlushLimit finalFlushCounters.length finalFlushArms (by decide) (by decide) ch cs h
+
+/-- the stale-read loop of `resolve_value` is a `for` over the constant -/
+theorem stale_read_loop_bounded : staleReadLoopBound = STALE_READ_RETRY_LIMIT ∧ staleReadLoopBound ≤ 16 := by decide
+
 /-! ### non-vacuity -/
+/-- the loop can really go the whole distance: 1023 retryable errors in a row keep it running -/
+example : (Loops.survive 4 finalFlushArms [4, 1, 4] (List.replicate finalFlushCounters.length 0)).isSome = true := by decide
+example : (Loops.survive 4 finalFlushArms [4, 1, 4, 1] (List.replicate finalFlushCounters.length 0)).isSome = false := by decide
 example : Chain [.retireFlush, .disk, .freeSpace] :=
   ⟨⟨"flush_pending_deletions -> process_deletions", by decide⟩,
    ⟨"process_write_batch -> failed_batch_outcome", by decide⟩, trivial⟩
